@@ -36,3 +36,44 @@ Definition f32_of_Z (z : Z) : Z :=
   bits_of_b32 (Binary.binary_normalize 24 128 eq_refl eq_refl mode_NE z 0 false).
 Definition f32_trunc (x : Z) : Z := Binary.Btrunc 24 128 (b32 x).
 Definition f32_isinf (x : Z) : bool := Z.land (x mod 4294967296) 2147483647 =? 2139095040.
+
+(** roundToIntegral in the binary32 format (IEEE 754 5.9): the result is the
+    integral value nearest to x in the given direction, as a binary32 number
+    with the sign of x; infinities are returned unchanged, NaN gives NaN.
+    Go: float32(math.Trunc(float64(x))) / float32(math.RoundToEven(float64(x)))
+    - the widening is exact, the binary64 operation returns an integral value
+    of at most 24 significant bits, so the narrowing is exact as well (trusted,
+    replayed on the corner grid on every run). *)
+Definition f32_rint (md : mode) (x : Z) : Z :=
+  bits_of_b32 (Binary.Bnearbyint 24 128 eq_refl unop_nan_pl32 md (b32 x)).
+Definition f32_truncf (x : Z) : Z := f32_rint mode_ZR x.
+Definition f32_rndne (x : Z) : Z := f32_rint mode_NE x.
+
+(** ** binary64 (a register pair holds the bit pattern) and format conversions.
+    convertFormat (IEEE 754 5.4.2): zeros and infinities keep their sign, NaN
+    gives NaN, a finite value is rounded to nearest even in the target format
+    (exact when widening). *)
+Definition b64 (x : Z) : binary64 := b64_of_bits (x mod 18446744073709551616).
+Definition f64_add (x y : Z) : Z := bits_of_b64 (b64_plus mode_NE (b64 x) (b64 y)).
+Definition f64_mul (x y : Z) : Z := bits_of_b64 (b64_mult mode_NE (b64 x) (b64 y)).
+Definition f64_of_Z (z : Z) : Z :=
+  bits_of_b64 (Binary.binary_normalize 53 1024 eq_refl eq_refl mode_NE z 0 false).
+Definition f64_isnan (x : Z) : bool := Binary.is_nan 53 1024 (b64 x).
+Definition conv_32_64 (x : binary32) : binary64 :=
+  match x with
+  | Binary.B754_zero _ _ s => Binary.B754_zero 53 1024 s
+  | Binary.B754_infinity _ _ s => Binary.B754_infinity 53 1024 s
+  | Binary.B754_nan _ _ _ _ _ => proj1_sig default_nan_pl64
+  | Binary.B754_finite _ _ s m e _ =>
+      Binary.binary_normalize 53 1024 eq_refl eq_refl mode_NE (if s then Z.neg m else Z.pos m) e s
+  end.
+Definition conv_64_32 (x : binary64) : binary32 :=
+  match x with
+  | Binary.B754_zero _ _ s => Binary.B754_zero 24 128 s
+  | Binary.B754_infinity _ _ s => Binary.B754_infinity 24 128 s
+  | Binary.B754_nan _ _ _ _ _ => proj1_sig default_nan_pl32
+  | Binary.B754_finite _ _ s m e _ =>
+      Binary.binary_normalize 24 128 eq_refl eq_refl mode_NE (if s then Z.neg m else Z.pos m) e s
+  end.
+Definition f64_of_f32 (x : Z) : Z := bits_of_b64 (conv_32_64 (b32 x)).
+Definition f32_of_f64 (x : Z) : Z := bits_of_b32 (conv_64_32 (b64 x)).
